@@ -876,6 +876,21 @@ def iterate(eng, st, s, xs):
             yield from eng.for_concrete(s, st, [V(xs.ty.args[0], t) for t in items])
             return
         yield from eng.for_seq(s, st, xs.t, xs.ty.args[0])
+    elif k == 'dictitems':
+        # for key, value in d.items(): the items in some order (keys distinct members of d,
+        # value = d[key]); the element handed to the loop target is the pair
+        d = xs.t
+        kt, vt = d.ty.args[0], d.ty.args[1]
+        n = card(d.t[0])
+        keys = z3.Const(eng.name('keys'), z3.SeqSort(sort_of(kt)))
+        eng.fact(st, z3.Length(keys) == n)
+
+        def axiom(i):
+            return z3.Select(d.t[0], keys[i])
+
+        def elem(i):
+            return V(TUP, (V(kt, keys[i]), V(vt, z3.Select(d.t[1], keys[i]))))
+        yield from eng.for_seq(s, st, keys, kt, axiom, elem=elem)
     elif k == 'dictvalues':
         d = xs.t
         vt = d.ty.args[1]
@@ -1181,6 +1196,13 @@ def sp_unshared(eng, st, e):
     yield st, vbool(getattr(v, 'origin', None) is None)
 
 
+def sp_is_record(eng, st, e):
+    """is_record(x): x is (statically, in this verification case) a dict literal with constant
+    string keys - used to tell the cases of a union-typed parameter apart in a clause."""
+    v = eng.spec(e.args[0], st, dict(st.env), modname=eng.modname(st))
+    yield st, vbool(v.ty.kind == 'rec')
+
+
 def sp_exists_split(eng, st, e):
     """exists_split(lambda p, e: body, s): some split s == p + e satisfies body."""
     lam = e.args[0]
@@ -1249,7 +1271,7 @@ def sp_alloc_now(eng, st, e):
     yield st, st.ghost['$alloc']
 
 
-SPECIAL = {'alloc_now': sp_alloc_now, 'old': sp_old, 'forall': sp_forall, 'exists': sp_exists, 'exists_split': sp_exists_split, 'unshared': sp_unshared, 'implies': sp_implies,
+SPECIAL = {'alloc_now': sp_alloc_now, 'old': sp_old, 'forall': sp_forall, 'exists': sp_exists, 'exists_split': sp_exists_split, 'unshared': sp_unshared, 'is_record': sp_is_record, 'implies': sp_implies,
            'typeis': sp_typeis}
 
 
